@@ -66,6 +66,10 @@ struct Shared {
     compared: AtomicU64,
 }
 
+thread_local! {
+    static CURRENT: std::cell::Cell<&'static str> = const { std::cell::Cell::new("?") };
+}
+
 fn cs(s: &str) -> CString {
     CString::new(s).unwrap()
 }
@@ -84,6 +88,7 @@ impl Ctx {
     }
     /// Log the call event, invoke, log the return event.
     fn call<T>(&self, func: &'static str, h: usize, a: i64, b: i64, name: &str, f: impl FnOnce() -> T, res: impl FnOnce(&T) -> (bool, i64, [u8; 8])) -> T {
+        CURRENT.with(|c| c.set(func));
         *self.sh.inflight_what[self.th as usize].lock().unwrap() = format!("{func}(h={h},a={a},b={b})");
         let t0 = self.now();
         self.sh.inflight[self.th as usize].store(t0.max(1), Ordering::SeqCst);
@@ -983,6 +988,32 @@ fn one_run(c: &mut Case, idx: u64, plan: &Plan, rng: &mut Rng, exact: bool, stal
 
 fn main() {
     let mut run = Run::new();
+    // breadcrumbs for the supervisor: a panic inside an extern "C" function aborts the whole process
+    let prev = std::panic::take_hook();
+    std::panic::set_hook(Box::new(move |info| {
+        let msg = info.payload().downcast_ref::<&str>().map(|s| s.to_string()).or_else(|| info.payload().downcast_ref::<String>().cloned()).unwrap_or_default();
+        if !msg.starts_with("panic in a function that cannot unwind") {
+            let loc = info.location().map(|l| l.file().to_string()).unwrap_or_default();
+            let rel = match loc.find("/registry/src/") {
+                Some(p) => loc[p + 14..].split_once('/').map(|x| x.1.to_string()).unwrap_or_default(),
+                None => loc.rsplit("/file-formats/").next().unwrap_or(&loc).rsplit("/ffi/").next().unwrap_or(&loc).to_string(),
+            };
+            let mut norm = String::new();
+            for c in msg.chars().take(100) {
+                if c.is_ascii_digit() {
+                    if !norm.ends_with('N') {
+                        norm.push('N');
+                    }
+                } else {
+                    norm.push(c);
+                }
+            }
+            let f = CURRENT.with(|c| c.get());
+            eprintln!("C19-CALL threads {f} threads");
+            eprintln!("C19-PANIC fn={f} handle=threads at={rel} msg={norm}");
+        }
+        prev(info)
+    }));
     let thorough = run.args.thorough();
     let exact = run.args.get("exact") == Some("1");
     let stall_secs: u64 = run.args.get("stall").and_then(|s| s.parse().ok()).unwrap_or(10);
